@@ -16,6 +16,19 @@ any length with any declare/override pattern.  `wf c` says that every template o
 the next one (by a literal or by an expression) and the last one does not inherit (no tag, or an expression
 evaluating to `None`).
 
+Theorems, by section: chain construction (`chain_built`, `render_starts_at_base`); member dispatch
+(`refs_dispatch`, `member_dispatch_partial`, `attr_dispatch`, `nsattr_walks_at_call_time`, `attr_read_during_build`,
+`attr_read_after_build`, `member_dispatch_counterexample`, `getattr_memo_sound`); the whole render
+(`render_follows_rules_partial`); named blocks (`named_block_position_partial`, `anonymous_block_in_place`,
+`buffered_block_renders_in_place`, `buffered_block_regression`, `named_block_once_partial`,
+`named_block_once_count_partial`, `named_block_counterexample`); `<%include>`
+(`include_starts_from_clean_context_obligation`, `include_starts_from_clean_context`); arguments
+(`body_args_reach_page_signature`, `member_call_binds_partial`, `bind_delivers`, `bind_rejects`); block checks
+(`block_checks_partial`, `block_checks_replaced_def`, `block_checks_counterexample_anonymous`).
+`nsattr_walks_at_call_time` and `include_starts_from_clean_context_obligation` are obligations on facts regenerated
+from mako/runtime.py (tools/regen_nsattrs.py); `buffered_block_regression` and `block_checks_replaced_def` are
+regression theorems of repaired defects.
+
 Recorded defects (known_findings.json) and how they show here:
 
 * F-C06-1: members named like an attribute of mako's `Namespace` objects (`Generated.NsAttrs.nsAttrs`: name, uri,
